@@ -374,6 +374,21 @@ def main():
         run.corr_failures.append({"stream": "policy-probe", "case": pcase, "impl": pobs["frames"],
                                   "model": "no masking policy of Model/Rows.v explains the probe"})
         policy = 0
+    # which theorem of Properties/C07.v speaks about the behaviour observed: C07_mode_verdict proves
+    #   C07_statement_q pol <-> mode_satisfies_statement pol = true ; the boolean is evaluated inside Coq
+    ans = run.coq_eval(IMPORTS, "", "mode_satisfies_statement (policy_of %s)" % zlit(policy))
+    verdict = {"true": True, "false": False}.get(ans.split(":")[0].replace("=", " ").split()[-1] if ans else "", None)
+    if verdict is None:
+        run.proof_ok = False
+        run.proof_log += "\nmode_satisfies_statement did not evaluate: " + ans[-500:]
+    elif verdict:
+        run.cov["theorem_path"] = ("masking effective: the statement over the property's quantifier is a THEOREM for the observed "
+                                   "behaviour (C07_mode_verdict; C07_statement_q_nonfinite_temp_repair / C07_statement_repaired)")
+    else:
+        run.cov["theorem_path"] = ("masking NOT effective: the statement is REFUTED for the observed behaviour (C07_mode_verdict; "
+                                   "C07_statement_q_refuted_as_coded / C07_statement_q_refuted_missing_temp_repair); the witnesses "
+                                   "are replayed on the implementation from corpus/C07.json; C07_both_or_neither_partial gives the guard")
+    run.log(run.cov.get("theorem_path", "no verdict"))
     cases = []
     if run.replay:
         rep = json.load(open(run.replay))
